@@ -1,8 +1,10 @@
 /-
   C16, stream part: the rule stream (`refill` / `pop` / `pops` of Echse.Model.RrStrm) hands out a strictly ascending
   list of instants, none before DTSTART, none after UNTIL, at most COUNT of them, and COUNT reached means end of
-  stream -- provided every filler call keeps its contract `FillOk` (hypothesis `FillContract`; the per-frequency
-  files discharge it).
+  stream -- provided every filler call keeps its contract `FillOk`.  The contract is a hypothesis here, in two forms:
+  `Contract K` -- every filler call whose seed satisfies the proviso `K r p` yields `FillOk` and hands `K` on to
+  what it writes (this is what the fillers satisfy, see RrAsm7 `fill_contract_seed`; the stream invariant carries `K`
+  from refill to refill) -- and the unconditional `FillContract` (= `Contract` with the trivial proviso).
 -/
 import Echse.Spec.RrOk
 import Echse.Props.C20
@@ -12,6 +14,16 @@ open Echse.Rrule Echse.Instant Echse.Spec.RrOk
 /-- the fillers' contract, as a hypothesis: the per-frequency files discharge it -/
 def FillContract : Prop :=
   ∀ (r : Rule) (p : Inst) (n : Nat) (l : List Inst), WfRule r → WfInst p → n ≤ 64 → fill r p n = some l → FillOk r p n l
+
+/-- the fillers' contract under a proviso `K` on rule and seed, which the fillers hand on to what they write and
+which does not look at COUNT -/
+structure Contract (K : Rule → Inst → Prop) : Prop where
+  fill : ∀ (r : Rule) (p : Inst) (n : Nat) (l : List Inst), WfRule r → WfInst p → K r p → n ≤ 64 →
+    fill r p n = some l → FillOk r p n l ∧ ∀ x ∈ l, K r x
+  count : ∀ (r : Rule) (p : Inst) (c : Int), K r p → K { r with count := c } p
+
+theorem FillContract.contract (hc : FillContract) : Contract (fun _ _ => True) :=
+  ⟨fun r p n l hr hp _ hn h => ⟨hc r p n l hr hp hn h, fun _ _ => trivial⟩, fun _ _ _ _ => trivial⟩
 
 /-! ### `ltP` is the order of a key -/
 
@@ -38,19 +50,23 @@ theorem sortInst_asc (l : List Inst) (h : l.Pairwise (fun a b => ltP a b = true)
 
 theorem fixDflts_untl (r : Rule) (p : Inst) : (fixDflts r p).untl = r.untl := by
   unfold fixDflts
-  split
-  · rfl
-  split
-  · rfl
-  split <;> (try split) <;> (try split) <;> rfl
+  repeat' split
+  all_goals rfl
 
 theorem fixDflts_count (r : Rule) (p : Inst) : (fixDflts r p).count = r.count := by
   unfold fixDflts
-  split
-  · rfl
-  split
-  · rfl
-  split <;> (try split) <;> (try split) <;> rfl
+  repeat' split
+  all_goals rfl
+
+theorem ymdGetWday_range (y m d : Nat) : 1 ≤ ymdGetWday y m d ∧ ymdGetWday y m d ≤ 7 := by
+  unfold ymdGetWday
+  simp only []
+  generalize (((if m < 3 then (y + u32 - 1) % u32 else y) + (if m < 3 then (y + u32 - 1) % u32 else y) / 4 + (u32 - (if m < 3 then (y + u32 - 1) % u32 else y) / 100) + (if m < 3 then (y + u32 - 1) % u32 else y) / 400 + [0, 3, 2, 5, 0, 3, 5, 1, 4, 6, 2, 4].getD (m - 1) 0 + d) % u32) = res
+  split <;> omega
+
+theorem wf_setDow (r : Rule) (w : Nat) (h : WfRule r) (hw : 1 ≤ w ∧ w ≤ 7) :
+    WfRule { r with dow := [(w : Int)] } :=
+  { h with dow := by intro x hx; simp at hx; subst hx; omega }
 
 theorem wf_setDom (r : Rule) (d : Nat) (h : WfRule r) (hd : d ≠ 0 ∧ d ≤ 31) :
     WfRule { r with dom := [(d : Int)] } :=
@@ -65,25 +81,24 @@ theorem wf_setCount (r : Rule) (c : Int) (h : WfRule r) (hc : c = -1 ∨ (0 ≤ 
   { h with count := hc }
 
 theorem fixDflts_wf (r : Rule) (p : Inst) (h : WfRule r) : WfRule (fixDflts r p) := by
-  have day : ∀ r' : Rule, WfRule r' →
-      WfRule (if p.d ≠ 0 ∧ p.d ≤ 31 then { r' with dom := [(p.d : Int)] } else r') := by
-    intro r' h'
-    split
-    · next hd => exact wf_setDom r' p.d h' hd
-    · exact h'
   unfold fixDflts
   by_cases h1 : r.shift = 0
   · rw [if_pos h1]; exact h
   rw [if_neg h1]
+  by_cases h2 : p.m = 0 ∨ p.m > 12 ∨ p.d = 0 ∨ p.d > 31
+  · rw [if_pos h2]; exact h
+  rw [if_neg h2]
+  have hm : p.m ≠ 0 ∧ p.m ≤ 12 := by omega
+  have hd : p.d ≠ 0 ∧ p.d ≤ 31 := by omega
+  split
+  · exact wf_setDow r _ h (ymdGetWday_range p.y p.m p.d)
   split
   · exact h
-  dsimp only
   split
-  · apply day
-    split
-    · next hm => exact wf_setMon r p.m h ⟨hm.2.1, hm.2.2⟩
-    · exact h
-  · exact day r h
+  · split
+    · exact wf_setDom _ p.d (wf_setMon r p.m h hm) hd
+    · exact wf_setDom r p.d h hd
+  · exact wf_setDom r p.d h hd
   · exact h
 
 /-! ### the stream invariant -/
@@ -92,7 +107,7 @@ theorem fixDflts_wf (r : Rule) (p : Inst) (h : WfRule r) : WfRule (fixDflts r p)
 def rem (s : Strm) : List Inst := s.cch.drop s.rdi
 
 /-- the stream invariant: `out` is what was handed out so far, `s` the state reached from `mkStrm r ds` -/
-structure Inv (r : Rule) (ds : Inst) (out : List Inst) (s : Strm) : Prop where
+structure Inv (K : Rule → Inst → Prop) (r : Rule) (ds : Inst) (out : List Inst) (s : Strm) : Prop where
   rule : ∃ c, s.rule = { fixDflts r ds with count := c }
   cnt_neg : r.count < 0 → s.rule.count = r.count
   cnt_pos : 0 ≤ r.count → 0 ≤ s.rule.count ∧ ((out ++ rem s).length : Int) + s.rule.count = r.count
@@ -100,8 +115,10 @@ structure Inv (r : Rule) (ds : Inst) (out : List Inst) (s : Strm) : Prop where
   ge_start : ∀ x ∈ out ++ rem s, ltP x ds = false
   le_until : ∀ x ∈ out ++ rem s, ltP r.untl x = false
   seed : ∀ p, s.from_ = some p → WfInst p ∧ ltP p ds = false ∧ ∀ x ∈ out ++ rem s, ltP x p = true
+  kind : ∀ p, s.from_ = some p → K s.rule p
 
-theorem inv_mk (r : Rule) (ds : Inst) (hd : WfInst ds) : Inv r ds [] (mkStrm r ds) where
+theorem inv_mk {K : Rule → Inst → Prop} (r : Rule) (ds : Inst) (hd : WfInst ds) (hk : K (fixDflts r ds) ds) :
+    Inv K r ds [] (mkStrm r ds) where
   rule := ⟨r.count, by simp [mkStrm, ← fixDflts_count r ds]⟩
   cnt_neg := fun _ => fixDflts_count r ds
   cnt_pos := fun h => by simp [mkStrm, rem, fixDflts_count, h]
@@ -113,8 +130,13 @@ theorem inv_mk (r : Rule) (ds : Inst) (hd : WfInst ds) : Inv r ds [] (mkStrm r d
     simp [mkStrm] at hp
     subst hp
     exact ⟨hd, ltP_irrefl _, by simp [mkStrm, rem]⟩
+  kind := by
+    intro p hp
+    simp [mkStrm] at hp
+    subst hp
+    exact hk
 
-theorem inv_wfRule {r ds out s} (hr : WfRule r) (hI : Inv r ds out s) : WfRule s.rule := by
+theorem inv_wfRule {K r ds out s} (hr : WfRule r) (hI : Inv K r ds out s) : WfRule s.rule := by
   obtain ⟨c, hc⟩ := hI.rule
   have hcnt : s.rule.count = c := by rw [hc]
   rw [hc]
@@ -125,7 +147,7 @@ theorem inv_wfRule {r ds out s} (hr : WfRule r) (hI : Inv r ds out s) : WfRule s
   · have := hI.cnt_pos h.1
     right; omega
 
-theorem inv_streamOk {r ds out s} (hI : Inv r ds out s) : StreamOk r ds out where
+theorem inv_streamOk {K r ds out s} (hI : Inv K r ds out s) : StreamOk r ds out where
   ascending := (List.pairwise_append.mp hI.asc).1
   ge_start := fun x hx => hI.ge_start x (List.mem_append_left _ hx)
   le_until := fun x hx => hI.le_until x (List.mem_append_left _ hx)
@@ -138,11 +160,11 @@ theorem inv_streamOk {r ds out s} (hI : Inv r ds out s) : StreamOk r ds out wher
 def cntNext (c : Int) (n : Nat) : Int := if c > 0 then (if (n : Int) < c then c - n else 0) else c
 
 /-- a refill that called the filler: `l = cch ++ from'` is what the filler delivered -/
-theorem inv_fill {r ds out s} (hI : Inv r ds out s) (hrem : rem s = []) (proto : Inst)
-    (hp : s.from_ = some proto) (l : List Inst) (hF : FillOk s.rule proto 64 l)
+theorem inv_fill {K r ds out s} (hcK : Contract K) (hI : Inv K r ds out s) (hrem : rem s = []) (proto : Inst)
+    (hp : s.from_ = some proto) (l : List Inst) (hF : FillOk s.rule proto 64 l) (hK : ∀ x ∈ l, K s.rule x)
     (cch : List Inst) (from' : Option Inst) (hl : l = cch ++ from'.toList) (s' : Strm)
     (h1 : s'.rule = { s.rule with count := cntNext s.rule.count cch.length })
-    (h2 : s'.from_ = from') (h3 : s'.cch = sortInst cch) (h4 : s'.rdi = 0) : Inv r ds out s' := by
+    (h2 : s'.from_ = from') (h3 : s'.cch = sortInst cch) (h4 : s'.rdi = 0) : Inv K r ds out s' := by
   obtain ⟨hpw, hpd, hpo⟩ := hI.seed proto hp
   rw [hrem, List.append_nil] at hpo
   have hasc := hF.ascending
@@ -156,7 +178,7 @@ theorem inv_fill {r ds out s} (hI : Inv r ds out s) (hrem : rem s = []) (proto :
   obtain ⟨c, hc⟩ := hI.rule
   have huntl : s.rule.untl = r.untl := by rw [hc]; exact fixDflts_untl r ds
   have hcnt' : s'.rule.count = cntNext s.rule.count cch.length := by rw [h1]
-  refine ⟨⟨cntNext s.rule.count cch.length, by rw [h1, hc]⟩, ?_, ?_, ?_, ?_, ?_, ?_⟩
+  refine ⟨⟨cntNext s.rule.count cch.length, by rw [h1, hc]⟩, ?_, ?_, ?_, ?_, ?_, ?_, ?_⟩
   · intro hn
     have := hI.cnt_neg hn
     rw [hcnt', cntNext, if_neg (by omega)]; exact this
@@ -199,13 +221,19 @@ theorem inv_fill {r ds out s} (hI : Inv r ds out s) (hrem : rem s = []) (proto :
         have b := ltP_false.mp (hF.ge_proto p hpl)
         exact ltP_true.mpr (by omega)
       · exact (List.pairwise_append.mp hasc).2.2 x hx p (by simp)
+  · intro p hp'
+    rw [h2] at hp'
+    subst hp'
+    have hpl : p ∈ l := by rw [hl]; simp
+    rw [h1]
+    exact hcK.count _ _ _ (hK p hpl)
 
 /-- a refill that did not call the filler (end of stream noted, or COUNT used up) -/
-theorem inv_idle {r ds out s} (hI : Inv r ds out s) (hrem : rem s = []) :
-    Inv r ds out { s with cch := [], rdi := 0 } := by
+theorem inv_idle {K r ds out s} (hI : Inv K r ds out s) (hrem : rem s = []) :
+    Inv K r ds out { s with cch := [], rdi := 0 } := by
   have e : rem { s with cch := [], rdi := 0 } = rem s := by rw [hrem]; rfl
   exact ⟨hI.rule, hI.cnt_neg, by rw [e]; exact hI.cnt_pos, by rw [e]; exact hI.asc,
-    by rw [e]; exact hI.ge_start, by rw [e]; exact hI.le_until, by rw [e]; exact hI.seed⟩
+    by rw [e]; exact hI.ge_start, by rw [e]; exact hI.le_until, by rw [e]; exact hI.seed, hI.kind⟩
 
 theorem refill_idle {s s'} (h : refill s = some s') (h0 : s.from_ = none ∨ s.rule.count = 0) :
     s' = { s with cch := [], rdi := 0 } := by
@@ -216,8 +244,8 @@ theorem refill_idle {s s'} (h : refill s = some s') (h0 : s.from_ = none ∨ s.r
     · simp_all
     · rw [if_pos h0] at h; exact (Option.some.inj h).symm
 
-theorem inv_refill (hc : FillContract) {r ds out s} (hr : WfRule r) (hI : Inv r ds out s) (hrem : rem s = [])
-    (s' : Strm) (h : refill s = some s') : Inv r ds out s' ∧ s'.rdi = 0 := by
+theorem inv_refill {K} (hc : Contract K) {r ds out s} (hr : WfRule r) (hI : Inv K r ds out s) (hrem : rem s = [])
+    (s' : Strm) (h : refill s = some s') : Inv K r ds out s' ∧ s'.rdi = 0 := by
   by_cases h0 : s.from_ = none ∨ s.rule.count = 0
   · rw [refill_idle h h0]; exact ⟨inv_idle hI hrem, rfl⟩
   · have hcnt : ¬ s.rule.count = 0 := fun e => h0 (Or.inr e)
@@ -229,29 +257,30 @@ theorem inv_refill (hc : FillContract) {r ds out s} (hr : WfRule r) (hI : Inv r 
     split at h
     · cases h
     next l hl =>
-    have hF := hc s.rule proto 64 l (inv_wfRule hr hI) (hI.seed proto hp).1 (Nat.le_refl _) hl
+    obtain ⟨hF, hK⟩ := hc.fill s.rule proto 64 l (inv_wfRule hr hI) (hI.seed proto hp).1 (hI.kind proto hp)
+      (Nat.le_refl _) hl
     by_cases hlen : l.length ≥ GRP_CCH_OFF
     · simp only [if_pos hlen] at h
       have hne : l ≠ [] := by intro e; rw [e] at hlen; simp [GRP_CCH_OFF] at hlen
       cases h
-      refine ⟨inv_fill hI hrem proto hp l hF (l.take (l.length - 1)) l.getLast? ?_ _ rfl rfl rfl rfl, rfl⟩
+      refine ⟨inv_fill hc hI hrem proto hp l hF hK (l.take (l.length - 1)) l.getLast? ?_ _ rfl rfl rfl rfl, rfl⟩
       rw [← List.dropLast_eq_take, List.getLast?_eq_some_getLast hne]
       exact (List.dropLast_concat_getLast hne).symm
     · simp only [if_neg hlen] at h
       cases h
-      exact ⟨inv_fill hI hrem proto hp l hF l none (by simp) _ rfl rfl rfl rfl, rfl⟩
+      exact ⟨inv_fill hc hI hrem proto hp l hF hK l none (by simp) _ rfl rfl rfl rfl, rfl⟩
 
 /-- handing out the head of the cache -/
-theorem inv_adv {r ds out s} (hI : Inv r ds out s) (x : Inst) (t : List Inst) (hrem : rem s = x :: t)
+theorem inv_adv {K r ds out s} (hI : Inv K r ds out s) (x : Inst) (t : List Inst) (hrem : rem s = x :: t)
     (s' : Strm) (h1 : s'.rule = s.rule) (h2 : s'.from_ = s.from_) (h3 : rem s' = t) :
-    Inv r ds (out ++ [x]) s' := by
+    Inv K r ds (out ++ [x]) s' := by
   have e : (out ++ [x]) ++ rem s' = out ++ rem s := by rw [h3, hrem]; simp
   exact ⟨by rw [h1]; exact hI.rule, by rw [h1]; exact hI.cnt_neg, by rw [e, h1]; exact hI.cnt_pos,
     by rw [e]; exact hI.asc, by rw [e]; exact hI.ge_start, by rw [e]; exact hI.le_until,
-    by rw [e, h2]; exact hI.seed⟩
+    by rw [e, h2]; exact hI.seed, by rw [h1, h2]; exact hI.kind⟩
 
-theorem inv_pop (hc : FillContract) {r ds out s} (hr : WfRule r) (hI : Inv r ds out s) (x : Inst) (s' : Strm)
-    (h : pop s = some (some x, s')) : Inv r ds (out ++ [x]) s' := by
+theorem inv_pop {K} (hc : Contract K) {r ds out s} (hr : WfRule r) (hI : Inv K r ds out s) (x : Inst) (s' : Strm)
+    (h : pop s = some (some x, s')) : Inv K r ds (out ++ [x]) s' := by
   unfold pop at h
   split at h
   · next hge =>
@@ -272,7 +301,7 @@ theorem inv_pop (hc : FillContract) {r ds out s} (hr : WfRule r) (hI : Inv r ds 
     exact inv_adv hI _ (s.cch.drop (s.rdi + 1)) (by simp [rem]) _ rfl rfl rfl
 
 /-- with COUNT used up the next pop yields nothing -/
-theorem pop_end {r ds out s} (hI : Inv r ds out s) (hcnt : 0 < r.count) (hlen : (out.length : Int) = r.count)
+theorem pop_end {K r ds out s} (hI : Inv K r ds out s) (hcnt : 0 < r.count) (hlen : (out.length : Int) = r.count)
     (o : Option Inst) (s' : Strm) (h : pop s = some (o, s')) : o = none := by
   have h0 := hI.cnt_pos (by omega)
   rw [List.length_append] at h0
@@ -292,8 +321,8 @@ theorem pop_end {r ds out s} (hI : Inv r ds out s) (hcnt : 0 < r.count) (hlen : 
 
 /-! ### the stream -/
 
-theorem pops_inv (hc : FillContract) {r ds} (hr : WfRule r) (n : Nat) :
-    ∀ (out : List Inst) (s : Strm) (l : List Inst) (e : Bool), Inv r ds out s → pops n s = some (l, e) →
+theorem pops_inv {K} (hc : Contract K) {r ds} (hr : WfRule r) (n : Nat) :
+    ∀ (out : List Inst) (s : Strm) (l : List Inst) (e : Bool), Inv K r ds out s → pops n s = some (l, e) →
       StreamOk r ds (out ++ l) := by
   induction n with
   | zero =>
@@ -318,14 +347,20 @@ theorem pops_inv (hc : FillContract) {r ds} (hr : WfRule r) (n : Nat) :
       rw [List.append_assoc] at this
       exact this
 
-theorem pops_ok (hc : FillContract) (r : Rule) (ds : Inst) (hr : WfRule r) (hd : WfInst ds)
+/-- C16 for the stream, under a contract with proviso `K` that holds of the rule (after `fix_rrul_dflts`) and DTSTART -/
+theorem pops_ok_of {K} (hc : Contract K) (r : Rule) (ds : Inst) (hr : WfRule r) (hd : WfInst ds)
+    (hk : K (fixDflts r ds) ds)
     (n : Nat) (l : List Inst) (ended : Bool) (h : pops n (mkStrm r ds) = some (l, ended)) : StreamOk r ds l := by
-  have := pops_inv hc hr n [] (mkStrm r ds) l ended (inv_mk r ds hd) h
+  have := pops_inv hc hr n [] (mkStrm r ds) l ended (inv_mk r ds hd hk) h
   rw [List.nil_append] at this
   exact this
 
-theorem pops_end (hc : FillContract) {r ds} (hr : WfRule r) (hcnt : 0 < r.count) (n : Nat) :
-    ∀ (out : List Inst) (s : Strm) (l : List Inst) (e : Bool) (l' : List Inst) (e' : Bool), Inv r ds out s →
+theorem pops_ok (hc : FillContract) (r : Rule) (ds : Inst) (hr : WfRule r) (hd : WfInst ds)
+    (n : Nat) (l : List Inst) (ended : Bool) (h : pops n (mkStrm r ds) = some (l, ended)) : StreamOk r ds l :=
+  pops_ok_of hc.contract r ds hr hd trivial n l ended h
+
+theorem pops_end {K} (hc : Contract K) {r ds} (hr : WfRule r) (hcnt : 0 < r.count) (n : Nat) :
+    ∀ (out : List Inst) (s : Strm) (l : List Inst) (e : Bool) (l' : List Inst) (e' : Bool), Inv K r ds out s →
       pops n s = some (l, e) → ((out ++ l).length : Int) = r.count → pops (n + 1) s = some (l', e') →
       l' = l ∧ e' = true := by
   induction n with
@@ -364,11 +399,18 @@ theorem pops_end (hc : FillContract) {r ds} (hr : WfRule r) (hcnt : 0 < r.count)
     exact ⟨by simp [this.1], this.2⟩
 
 /-- COUNT reached means the stream has ended: after COUNT occurrences the next pop yields nothing -/
+theorem pops_count_ends_of {K} (hc : Contract K) (r : Rule) (ds : Inst) (hr : WfRule r) (hd : WfInst ds)
+    (hk : K (fixDflts r ds) ds)
+    (hcnt : 0 < r.count) (n : Nat) (l : List Inst) (ended : Bool) (h : pops n (mkStrm r ds) = some (l, ended))
+    (hlen : (l.length : Int) = r.count) (l' : List Inst) (e' : Bool)
+    (h' : pops (n + 1) (mkStrm r ds) = some (l', e')) : l' = l ∧ e' = true :=
+  pops_end hc hr hcnt n [] (mkStrm r ds) l ended l' e' (inv_mk r ds hd hk) h (by rw [List.nil_append]; exact hlen) h'
+
 theorem pops_count_ends (hc : FillContract) (r : Rule) (ds : Inst) (hr : WfRule r) (hd : WfInst ds)
     (hcnt : 0 < r.count) (n : Nat) (l : List Inst) (ended : Bool) (h : pops n (mkStrm r ds) = some (l, ended))
     (hlen : (l.length : Int) = r.count) (l' : List Inst) (e' : Bool)
     (h' : pops (n + 1) (mkStrm r ds) = some (l', e')) : l' = l ∧ e' = true :=
-  pops_end hc hr hcnt n [] (mkStrm r ds) l ended l' e' (inv_mk r ds hd) h (by rw [List.nil_append]; exact hlen) h'
+  pops_count_ends_of hc.contract r ds hr hd trivial hcnt n l ended h hlen l' e' h'
 
 /-! ### the premises are not vacuous: FREQ=DAILY;COUNT=3 from 2020-02-28T09:30:00 -/
 
